@@ -51,6 +51,16 @@ Theorem C02_src_silence : forall fail nowT tr e n,
 Proof. intros fail nowT tr e n H. rewrite src_track_perform_event_is. apply C02_silence. exact H. Qed.
 Print Assumptions C02_src_silence.
 
+(* the voice loop of the note branch (no device fault): exactly the voices with amplitude > 0 and gate > 0 sound, in order,
+   each registering ONE release due duration*gate after the onset on the track's clock and on the timeline's *)
+Theorem C02_src_voices : forall nowT tr vs n calls,
+  fold_left (src_track_perform_voice None nowT) vs (tr, calls, n, true) =
+    (set_offs tr (t_offs tr ++ map (voice_entry nowT (t_cur tr)) (filter voice_on vs)),
+     calls ++ map voice_call (filter voice_on vs),
+     (n + length (filter voice_on vs))%nat, true).
+Proof. intros nowT tr vs n calls. rewrite voice_loop_is, C02_voices. reflexivity. Qed.
+Print Assumptions C02_src_voices.
+
 Example C02_src_nonvacuous :
   let tr := mkTrack 0 empty_stream 10 20 None 0 [mkNO 10 10 60 0; mkNO 11 11 61 0; mkNO 10 10 60 0; mkNO 3 3 62 1] false true false true None in
   src_track_process_note_offs tr
